@@ -61,6 +61,12 @@ def gen_cases(tier, seed):
             cases.append({"H": a[0], "W": b[0], "k": [a[1], b[1]], "s": [a[2], b[2]], "p": [a[3], b[3]], "d": [a[4], b[4]], "N": N_, "C": C_,
                           "pad_value": [0, -1.5][want_eq % 2], "form": "tuple", "seed": int(rng.integers(2 ** 31)), "size_class": "square-column-matrix"})
             want_eq -= 1
+    # many images / channels (work split into blocks of 32 / 64 / 128 / 256: the last, partial block): small geometries, N or C just above a power of two
+    small = [t for t in g if t[0] <= 3]
+    for n, NC in enumerate([(65, 1), (70, 1), (129, 1), (130, 2), (257, 1), (33, 2), (1, 65), (2, 130), (1, 257)] + ([(513, 1), (1025, 1), (1, 513)] if tier == "thorough" else [])):
+        a, b = small[int(rng.integers(len(small)))], small[int(rng.integers(len(small)))]
+        cases.append({"H": a[0], "W": b[0], "k": [a[1], b[1]], "s": [a[2], b[2]], "p": [a[3], b[3]], "d": [a[4], b[4]], "N": NC[0], "C": NC[1],
+                      "pad_value": [0, -1.5][n % 2], "form": "tuple", "seed": int(rng.integers(2 ** 31)), "size_class": "many-images-or-channels"})
     gbig = axis_geos(12, 3, 3, 2, 2)
     for n in range(100 if tier == "quick" else 3000):
         a, b = gbig[int(rng.integers(len(gbig)))], gbig[int(rng.integers(len(gbig)))]
@@ -247,6 +253,32 @@ def run_case(ns, mon, c):
                 viol.append(V("place_windows:differs-from-col2im", "window placement disagrees with col2im", geometry=geo))
         except Exception as e:
             viol.append(V(f"place_windows:raises:argform={form}", f"place_windows raised {type(e).__name__}", geometry=geo, error=str(e)[:200]))
+    # results are values: a later call of the same routine with the same shapes (other contents) does not rewrite an earlier result
+    for name in ("col2im", "col2im_v2", "col2im_fast", "place_windows", "im2col", "im2col_v2", "im2col_fast", "extract_windows"):
+        try:
+            f = getattr(ct, name)
+            if name.startswith("col2im"):
+                call_ = lambda v_, f=f: f(np.ascontiguousarray(v_), (N, C, H, W), k, d, s, p)
+                a1, a2 = y_unf, y_unf[::-1] * 0.5 + 1.0
+            elif name == "place_windows":
+                if win is None:
+                    continue
+                call_ = lambda v_, f=f: f(np.ascontiguousarray(v_), (N, C, H, W), k, s, p, d)
+                a1 = y_unf.reshape(N, C, kk[0], kk[1], lH, lW).transpose(4, 5, 0, 1, 2, 3); a2 = a1 * -0.5 + 2.0
+            elif name == "extract_windows":
+                call_ = lambda v_, f=f: f(v_, k, s, p, d, pv)
+                a1, a2 = x_snapshot, x_snapshot * -0.5 + 2.0
+            else:
+                call_ = lambda v_, f=f: f(v_, k, d, s, p, pv, as_unfold=True)
+                a1, a2 = x_snapshot, x_snapshot * -0.5 + 2.0
+            r1 = call_(a1.copy())
+            keep = np.array(r1, copy=True)
+            r2 = call_(a2.copy())
+            counters["result_stability_checks"] = counters.get("result_stability_checks", 0) + 1
+            if np.shape(r1) != keep.shape or not np.array_equal(np.asarray(r1), keep, equal_nan=True):
+                viol.append(V(f"{name}:earlier-result-rewritten-by-later-call", f"the array {name} returned changed when {name} was called again on other values of the same shape", geometry=geo))
+        except Exception:
+            pass
     # adjointness (pad value 0) for every variant pair, both layouts
     for iname, cname in (("im2col", "col2im"), ("im2col_v2", "col2im_v2"), ("im2col_fast", "col2im_fast")):
         for layout, y in ((False, y_2d), (True, y_unf)):
